@@ -10,7 +10,6 @@ NA = {
  "C08": "interleaving property (readers vs flush/retire/reuse); only sequential kernels are provable and they are reported under C10/C03",
  "C14": "range scan lives entirely on crossbeam-skiplist + epoch pins, outside both tools",
  "C15": "file-system publication protocol + two whole-store recoveries; no per-function contract within reach decides it",
- "C18": "termination/deadlock freedom across threads; neither tool proves liveness",
  "C20": "memory safety under interleavings of unsafe epoch/io_uring code; Kani is sequential only and Verus cannot ingest the unsafe code",
 }
 PENDING = "unit not built yet in this session (DESIGN §3); no claim is kept without its unit"
